@@ -369,18 +369,19 @@ PROPS['C20'] = {
     ],
 }
 PROPS['C02'] = {
-    'units': ['solver'],
-    'functions': SOLVER_FNS,
-    'oracles': {'*': 'c02_cut', '#programs': 'c02_prog', '#cut_walk': 'c02_walk'},
+    'units': ['solver', 'cutwalk'],
+    'functions': SOLVER_FNS + ['solution_node.rs::SolutionNode::set_no_backtracking'],
+    'oracles': {'*': 'c02_cut', '#programs': 'c02_prog', '#cut_walk': 'c02_walk', '#cut_walk_effect': 'c02_walk', '#walk_inv': 'c02_walk', '#walk_terminates': 'c02_walk', 'solution_node.rs::SolutionNode::set_no_backtracking': 'c02_walk'},
     'bounded': [('c02_cut', 'supplementary to the proof, and the source of witnesses: 29 queries over a program of 45 clauses with cuts (cut then failure, cut in the first / a later clause, cut inside an alternative, cuts in nested calls, cut under not, recursion ended by a cut) - '
                             'the engine\'s answer sequence against a reference interpreter written from the statement (depth-first resolution; a cut that is backtracked into fails its clause; after a cut the call yields no answer beyond the one being derived)')],
     'not_covered': [
         'PROVED (Verus, verbatim bodies over the node heap, R15): a node whose cut flag is set yields nothing more and does nothing (#cut_blocks); the clause loop of a call never fetches a later clause once the flag of the call is set (#cut_stops_clauses); '
         'an and-node whose flag is set when the goals after the cut have failed does not get another answer from the goals to the left (#cut_left_goals: the flag of a node implies the flag of its head node - heap invariant); '
         'whatever cuts run during a request, no node above the call the node belongs to has its flag changed (#cut_confined: the caller and everything above it are unaffected)',
-        'ASSUMED, because it is unsafe code outside both verifiers\' deductive reach: what SolutionNode::set_no_backtracking() does - it sets the flag of the cut\'s node, of every node up the parent_node links until a node without parent (the complex-goal node of the call, by make_solution_node), and of the head node of each of these. '
-        'The bounded oracle c02_walk checks exactly that specification on the real function with real nodes (parent chains of length 0-5, every combination of head nodes, heads of heads, and tail nodes that point into the chain: 329 shapes); from the specification next_solution_bip is PROVED to keep the invariant, flag the call node and leave everything above the call alone (lemma_walk)',
-        '"the call yields no answers beyond the one being derived when the cut ran" = the flag of the call node is set by the walk (assumed, above) + #cut_blocks (proved)',
+        'PROVED since 8.40 (unit cutwalk, rule R17) on the verbatim UNSAFE body of SolutionNode::set_no_backtracking(): it sets the flag of the cut\'s node, of every node up the parent_node links until a node without parent (the complex-goal node of the call, by make_solution_node), and of the head node of each of these ancestors, and nothing else (#cut_walk_effect = the specification `walked`; loop invariant #walk_inv; it terminates: each step goes one level up, #walk_terminates); '
+        'its precondition - the parent chain is well formed - is PROVED at the call in next_solution_bip (lemma_chain_ok, from the heap invariant). Relative to R17: `self` is the node whose RefMut the caller holds, `as_ptr()` gives a handle on the node pointed to, `(*raw).F` reads / writes field F of that node - whether such an access under a live RefMut of another node is defined behaviour is C24 (not applicable). '
+        'The bounded oracle c02_walk checks the same specification on the real function with real nodes (parent chains of length 0-5, every combination of head nodes, heads of heads, tail nodes that point into the chain: 329 shapes) - supplementary now; from the specification next_solution_bip is PROVED to keep the invariant, flag the call node and leave everything above the call alone (lemma_walk)',
+        '"the call yields no answers beyond the one being derived when the cut ran" = the flag of the call node is set by the walk (proved, above) + #cut_blocks (proved)',
         'RELATIVE TO the heap model (T8); partial correctness',
     ],
 }
@@ -405,9 +406,9 @@ TRUSTED_TEXT = {
     'T1': "rustc's derived PartialEq/Clone on the extracted types behave as spec `ueq` / identity (assume_specification + PartialEqSpecImpl)",
     'T2': 'vstd specifications of Vec, Rc, Box, Option, String, slices; axioms added where vstd has none are listed individually',
     'T3': 'assumed specifications for std string/char primitives (listed individually)',
-    'T4': 'extractor rewrite rules R1-R16 (syntactic; counts per rule reported in coverage.rewrites)',
+    'T4': 'extractor rewrite rules R1-R17 (syntactic; counts per rule reported in coverage.rewrites)',
     'T5': 'Verus 0.2026.09.13 + its Z3; rustc front end',
     'T9': 'the id counter LOGIC_VAR_ID (static mut, outside Verus) as ghost state `ids` passed along by the functions that touch it (spec/counter_state.rs): changed only by next_id (+1, returns the new value), set_var_id, clear_id / start_query',
     'T10': 'C20 only: parse_term, make_term, check_arithmetic_infix and get_left_and_right are FUNCTIONS of their arguments (no global state, no interior mutability): assumed where they are callees, through uninterpreted spec functions alone / mk / arith_infix / operands (spec/contexts.rs)',
-    'T8': 'the node heap (spec/solver.rs): Rc<RefCell<SolutionNode>> accesses as accessor calls on one ghost heap passed along (R15); Rc::clone keeps identity; a field access through a RefMut touches that field of that node only; the raw-pointer writes of set_no_backtracking set no_backtracking flags only',
+    'T8': 'the node heap (spec/solver.rs): Rc<RefCell<SolutionNode>> accesses as accessor calls on one ghost heap passed along (R15); Rc::clone keeps identity; a field access through a RefMut touches that field of that node only; R17: in set_no_backtracking `self` is the node whose RefMut the caller holds, `as_ptr()` a handle on the node pointed to, `(*raw).F` an access to field F of that node (no lock asked: unsafe)',
 }
